@@ -62,6 +62,9 @@ def gen(t):
     add('rotWithUp', '%s& m, const %s& f, const %s& t, const %s& u' % (M[4], V[3], V[3], V[3]), 'm = rotationMatrixWithUpDir(f, t, u);', kind='frame', rows='rotup')
     add('localFrame', '%s& m, const %s& p, const %s& x, const %s& n' % (M[4], V[3], V[3], V[3]), 'm = computeLocalFrame(p, x, n);', kind='frame', rows='local')
     add('firstFrame', '%s& m, const %s& a, const %s& b, const %s& c' % (M[4], V[3], V[3], V[3]), 'm = firstFrame(a, b, c);', kind='frame', rows='first')
+    add('nextFrameI', '%s& m, const %s& p, const %s& q, %s& ti, %s& tj' % (M[4], V[3], V[3], V[3], V[3]), '%s I; m = nextFrame(I, p, q, ti, tj);' % M[4], kind='next', rows='nextI')
+    add('nextFrameM', '%s& m, const %s& Mi, const %s& p, const %s& q, %s& ti, %s& tj' % (M[4], M[4], V[3], V[3], V[3], V[3]), 'm = nextFrame(Mi, p, q, ti, tj);', kind='next', rows='nextM')
+    add('lastFrame', '%s& m, const %s& Mi, const %s& p, const %s& q' % (M[4], M[4], V[3], V[3]), 'm = lastFrame(Mi, p, q);', kind='next', rows='last')
     return tu
 
 def trig(name, x, lt):
@@ -172,7 +175,7 @@ def main(rep, ws, tier):
             oid = '%s<%s>' % (name[2:], E)
             S = R.get(name)
             kind = m['kind']
-            rule = {'set': 'R09.set', 'pre': 'R09.pre', 'post': 'R09.pre', 'trow': 'R09.point', 'frame': 'R09.frame'}[kind]
+            rule = {'set': 'R09.set', 'pre': 'R09.pre', 'post': 'R09.pre', 'trow': 'R09.point', 'frame': 'R09.frame', 'next': 'R09.frame'}[kind]
             if S is None:
                 rep.ob(oid, rule, UNDECIDED, R.err.get(name, 'not analysed')); continue
             where = fn_where(S.fn)
@@ -251,6 +254,9 @@ def main(rep, ws, tier):
                     continue
                 if kind == 'frame':
                     check_frame(rep, oid, S, m, t, where)
+                    if m['rows'] == 'first': check_first_axes(rep, oid, S, t, where)
+                if kind == 'next':
+                    check_next(rep, oid, S, m, t, where, R)
             except (P.NotPoly, PC.Undecided, vg.Unsupported, OverflowError) as e:
                 rep.ob(oid, rule, UNDECIDED, str(e), where)
     rep.floor('transform builder instances', sum(1 for o in rep.obs if o['rule'] in ('R09.set', 'R09.pre')), 28 * len(types))
@@ -323,6 +329,160 @@ def check_frame(rep, oid, S, m, t, where):
             rep.ob(oid, 'R09.frame', UNDECIDED, 'scenario "%s": %s' % (scname, e), where); return
         if bad: break
     rep.ob(oid, 'R09.frame', VIOLATED if bad else HOLDS, bad or '%d cases over scenarios %s: orthonormal, right-handed, affine' % (ncase, detail), where)
+
+def _unit(ctx, base, t):
+    ks = [ctx.key(agg.slot_in(base, i, t)) for i in range(3)]
+    ctx.rules[ks[2]] = P.psub(P.psub(P.pconst(1), P.ppow(P.patom(ks[0]), 2)), P.ppow(P.patom(ks[1]), 2))
+
+def _inverse_trig_hooks(ctx):
+    """cos(acos a) = a, sin(acos a) = sqrt(1-a^2), sin(asin a) = a, cos(asin a) = sqrt(1-a^2); acos >= 0"""
+    inv = {}; orig = ctx.call
+    def call(n):
+        nm = str(n.attr).rstrip('f') if str(n.attr) in ('acosf', 'asinf', 'cosf', 'sinf') else n.attr
+        if nm in ('acos', 'asin') and len(n.args) == 1:
+            r = orig(n)
+            (mono, c_), = r[0].items(); k = mono[0][0]
+            inv[k] = (nm, ctx.rat(n.args[0]))
+            if nm == 'acos' or (n.args[0].op == 'call' and n.args[0].attr == 'sqrt'): ctx.positive.add(k)
+            return r
+        if nm in ('cos', 'sin') and len(n.args) == 1:
+            a = ctx.rat(n.args[0])
+            if a[1] == ONE and len(a[0]) == 1:
+                (mono, c_), = a[0].items()
+                if c_ == 1 and len(mono) == 1 and mono[0][1] == 1 and mono[0][0] in inv:
+                    fn_, x = inv[mono[0][0]]
+                    if (fn_, nm) in (('acos', 'cos'), ('asin', 'sin')): return x
+                    one_m = ctx.radd((P.pconst(1), ONE), (P.pneg(ctx.rmul(x, x)[0]), ctx.rmul(x, x)[1]))
+                    return ctx.rdiv(ctx.sqrt_poly(one_m[0]), ctx.sqrt_poly(one_m[1]))
+        return orig(n)
+    ctx.call = call
+
+def check_next(rep, oid, S, m, t, where, R):
+    """nextFrame / lastFrame.  With Mi = I and unit tangents (they are normalised first):  the linear part is a rotation
+    carrying ti onto tj, the previous point is carried onto the current one, the matrix is affine;  for a general Mi the
+    result is Mi times that matrix;  lastFrame is Mi * translate(pj - pi)."""
+    E, sz, lt = ELEM[t]
+    outs = [S.out('a0', i * sz, sz, lt) for i in range(16)]
+    kind = m['rows']
+    def vec(ctx, base): return [(ctx.reduce(P.patom(ctx.key(agg.slot_in(base, i, t)))), ONE) for i in range(3)]
+    def mat(ctx, base): return [[(ctx.reduce(P.patom(ctx.key(agg.slot_in(base, i * 4 + j, t)))), ONE) for j in range(4)] for i in range(4)]
+    def neg(r): return (P.pneg(r[0]), r[1])
+    if kind == 'last':
+        ctx = P.Ctx()
+        got = [ctx.rat(x) for x in outs]
+        Mi = mat(ctx, 'a1'); p, q = vec(ctx, 'a2'), vec(ctx, 'a3')
+        d = [ctx.radd(q[i], neg(p[i])) for i in range(3)]
+        bad = None
+        for i in range(4):
+            for j in range(4):
+                # translate(d) = I with last row (d,1); Mi * Tr: column j<3: Mi[i][j] + Mi[i][3]*d[j]; column 3: Mi[i][3]
+                want = Mi[i][3] if j == 3 else ctx.radd(Mi[i][j], ctx.rmul(Mi[i][3], d[j]))
+                if not ctx.requal(got[i * 4 + j], want): bad = 'entry [%d][%d] = %s, Mi * translate(pj - pi) has %s' % (i, j, P.show_rat(got[i * 4 + j], ctx)[:120], P.show_rat(want, ctx)[:120]); break
+            if bad: break
+        rep.ob(oid, 'R09.frame', VIOLATED if bad else HOLDS, bad or 'Mi * translate(pj - pi)', where); return
+    tb, ub = ('a3', 'a4') if kind == 'nextI' else ('a4', 'a5')
+    pb, qb = ('a1', 'a2') if kind == 'nextI' else ('a2', 'a3')
+    ctx = P.Ctx(); ctx.cancel = True
+    _unit(ctx, tb, t); _unit(ctx, ub, t)
+    _inverse_trig_hooks(ctx)
+    ti, tj = vec(ctx, tb), vec(ctx, ub)
+    dotp = (P.pconst(0), ONE)
+    for i in range(3): dotp = ctx.radd(dotp, ctx.rmul(ti[i], tj[i]))
+    def bounded(X):
+        """X^2 + Y^2 = 1 for Y the dot product or the cross-product length of the unit tangents: |X| <= 1"""
+        try: x = ctx.rat(X)
+        except P.NotPoly: return False
+        one_m = ctx.radd((P.pconst(1), ONE), neg(ctx.rmul(x, x)))
+        d2 = ctx.rmul(dotp, dotp)
+        return ctx.requal(one_m, d2) or ctx.requal(one_m, ctx.radd((P.pconst(1), ONE), neg(d2)))
+    def premise(c):
+        if tiny_cond(c): return False
+        if c.op == 'fcmp' and c.attr in ('oeq', 'une', 'one') and any(z.op == 'const' and T.const_value(z) == 0 for z in c.args): return c.attr != 'oeq'   # lengths / angle non-zero
+        if c.op == 'fcmp' and c.attr in ('olt', 'ole'):
+            a_, b_ = c.args
+            for k_, lo in ((a_, True), (b_, False)):
+                if k_.op == 'const' and abs(T.const_value(k_)) == 1:
+                    other = b_ if lo else a_
+                    if not bounded(other): return None
+                    v = T.const_value(k_)
+                    # lo: const < X ; else: X < const          (|X| < 1 on the generic cell)
+                    return (v == -1) if lo else (v == 1)
+        return None
+    def enum(c): return False
+    ncase = 0; bad = None
+    for asg, res in PC.generic_cases(outs, ctx, enumerate_cond=enum, premise=premise):
+        ncase += 1
+        got = [ctx.rat(x) for x in res]
+        if kind == 'nextI':
+            rows = [[got[i * 4 + j] for j in range(3)] for i in range(3)]
+            e = ortho_check(ctx, rows)
+            if not e:
+                for j in range(3):
+                    acc = (P.pconst(0), ONE)
+                    for i in range(3): acc = ctx.radd(acc, ctx.rmul(ti[i], rows[i][j]))
+                    if not ctx.requal(acc, tj[j]): e = 'the previous tangent is not carried onto the current one: (ti * R)[%d] = %s' % (j, P.show_rat(acc, ctx)[:140]); break
+            if not e:
+                p, q = vec(ctx, pb), vec(ctx, qb)
+                for j in range(3):
+                    acc = got[12 + j]
+                    for i in range(3): acc = ctx.radd(acc, ctx.rmul(p[i], rows[i][j]))
+                    if not ctx.requal(acc, q[j]): e = 'the previous point is not carried onto the current one (component %d)' % j; break
+            if not e and not (ctx.rzero(got[3]) and ctx.rzero(got[7]) and ctx.rzero(got[11]) and ctx.requal(got[15], (P.pconst(1), ONE))): e = 'last column is not (0,0,0,1)'
+            if e: bad = e; break
+        else:
+            SI = R.get('w_nextFrameI')
+            if SI is None: raise vg.Unsupported('nextFrameI not analysed')
+            ren = {agg.slot_in('a1', i, t): agg.slot_in('a2', i, t) for i in range(3)}
+            ren.update({agg.slot_in('a2', i, t): agg.slot_in('a3', i, t) for i in range(3)})
+            ren.update({agg.slot_in('a3', i, t): agg.slot_in('a4', i, t) for i in range(3)})
+            ren.update({agg.slot_in('a4', i, t): agg.slot_in('a5', i, t) for i in range(3)})
+            base_ = [T.subst(SI.out('a0', i * sz, sz, lt), ren) for i in range(16)]
+            for asg2, res2 in PC.generic_cases(base_, ctx, enumerate_cond=enum, premise=premise):
+                X = [ctx.rat(x) for x in res2]
+                Mi = mat(ctx, 'a1')
+                for i in range(4):
+                    for j in range(4):
+                        acc = (P.pconst(0), ONE)
+                        for k in range(4): acc = ctx.radd(acc, ctx.rmul(Mi[i][k], X[k * 4 + j]))
+                        if not ctx.requal(got[i * 4 + j], acc): bad = 'entry [%d][%d] is not that of Mi * nextFrame(I, ...)' % (i, j); break
+                    if bad: break
+                break
+            if bad: break
+    if ncase == 0: bad = 'no feasible case'
+    rep.ob(oid, 'R09.frame', VIOLATED if bad else HOLDS, bad or ('rotation carrying ti onto tj and pi onto pj, affine (unit tangents, generic turn)' if kind == 'nextI' else 'Mi * nextFrame(I, ...)'), where)
+
+def check_first_axes(rep, oid, S, t, where):
+    """firstFrame, generic points: x axis = (pj - pi)/|pj - pi|, y axis perpendicular to pk - pi, origin pi"""
+    E, sz, lt = ELEM[t]
+    outs = [S.out('a0', i * sz, sz, lt) for i in range(16)]
+    for _ in range(10):
+        pre = regular_premises(outs)
+        if not pre: break
+        outs = [T.resolve(o, pre) for o in outs]
+    ctx = P.Ctx(); ctx.cancel = True
+    def vec(base): return [(ctx.reduce(P.patom(ctx.key(agg.slot_in(base, i, t)))), ONE) for i in range(3)]
+    def neg(r): return (P.pneg(r[0]), r[1])
+    pi_, pj_, pk_ = vec('a1'), vec('a2'), vec('a3')
+    bad = None
+    try:
+        for asg, res in PC.generic_cases([o for o in outs if o.op != 'throw'], ctx, premise=lambda c: False if tiny_cond(c) else None, enumerate_cond=lambda c: False):
+            if any(r.op == 'throw' for r in res): continue
+            got = [ctx.rat(x) for x in res]
+            d = [ctx.radd(pj_[i], neg(pi_[i])) for i in range(3)]; e_ = [ctx.radd(pk_[i], neg(pi_[i])) for i in range(3)]
+            l2 = (P.pconst(0), ONE)
+            for i in range(3): l2 = ctx.radd(l2, ctx.rmul(d[i], d[i]))
+            ln = ctx.rdiv(ctx.sqrt_poly(l2[0]), ctx.sqrt_poly(l2[1]))
+            for j in range(3):
+                if not ctx.requal(ctx.rmul(got[j], ln), d[j]): bad = 'x axis is not the unit tangent (pj - pi)/|pj - pi| (component %d)' % j; break
+                if not ctx.requal(got[12 + j], pi_[j]): bad = 'origin is not pi (component %d)' % j; break
+            if not bad:
+                acc = (P.pconst(0), ONE)
+                for j in range(3): acc = ctx.radd(acc, ctx.rmul(got[4 + j], e_[j]))
+                if not ctx.rzero(acc): bad = 'y axis is not perpendicular to pk - pi'
+            break
+    except (P.NotPoly, PC.Undecided) as e:
+        rep.ob(oid + '#axes', 'R09.frame', UNDECIDED, str(e)[:300], where); return
+    rep.ob(oid + '#axes', 'R09.frame', VIOLATED if bad else HOLDS, bad or 'x axis = unit tangent, y axis normal to the plane of the three points, origin pi', where)
 
 def show_bits(enum, bits):
     return ', '.join('%s=%s' % (T.show(c, 2)[:60], 'T' if b else 'F') for c, b in zip(enum, bits))
